@@ -21,6 +21,7 @@ func propC16(c *Ctx) {
 	c.R.Explanation = "Decides for the module's code that the five accessors do not change the catalog model outside once-only initialisation: write effects are computed over SSA for every function reachable from ToJson/ToJsonIndent/ToOpenAPIJson[Indent]/Title and from the MarshalJSON/MarshalText methods (closures given to sync.Once.Do are cut), and no write may land in a pre-existing object of the catalog/core/directive model or in package state; lazily computed state keeps its error in the object (no captured local); stateful or pool-backed results of the dependency are only consumed inside a Once memo or copied (string conversion) before they are kept. Not decided: that the bytes are equal across calls inside jsight-schema-core (trusted, classified in reference/dep_api.json; thorough tier checks the classification of pooled-buffer producers against the dependency source)."
 	c.ruleMarshalPurity("C16-MARSHAL-PURITY")
 	c.ruleOnceErrPersists("C16-ONCE-STATE")
+	c.ruleOnceNotAroundPanic("C16-ONCE-NO-PANIC")
 	c.ruleDepCalls("C16-DEP-CALLS")
 	c.ruleGlobalState("C16-GLOBAL-STATE")
 }
@@ -366,3 +367,116 @@ func (c *Ctx) checkPooledClassification(rule string) {
 }
 
 var _ = token.NoPos
+
+// ruleOnceNotAroundPanic: sync.Once marks itself done even when the function it runs panics. A once-only computation
+// that can panic therefore leaves its result unset for good: the first call fails loudly (the panic is recovered by the
+// caller and turned into an error), every later call silently works with the zero result. The closure handed to Do
+// must either recover itself and record the failure, or reach no explicit panic and no unchecked type assertion of the
+// module.
+func (c *Ctx) ruleOnceNotAroundPanic(rule string) {
+	r := c.R
+	r.Rule(rule, "a closure handed to (*sync.Once).Do in the library either has its own deferred recover that records the failure, or no function of the module reachable from it contains an explicit panic or a single-result type assertion: otherwise a panic in the first call leaves the once-only result unset and every later call returns it as if it had been computed", 3)
+	n := 0
+	for _, f := range c.libFns() {
+		pk := f.Pkg
+		ast.Inspect(f.Decl.Body, func(nd ast.Node) bool {
+			call, ok := nd.(*ast.CallExpr)
+			if !ok || len(call.Args) != 1 {
+				return true
+			}
+			cal := callee(pk, call)
+			if cal == nil || cal.Name() != "Do" || cal.Pkg() == nil || cal.Pkg().Path() != "sync" {
+				return true
+			}
+			fl, ok := call.Args[0].(*ast.FuncLit)
+			if !ok {
+				return true
+			}
+			n++
+			sel, _ := ast.Unparen(call.Fun).(*ast.SelectorExpr)
+			key := fmt.Sprintf("%s | %s.Do", f.Name(), exprString(sel.X))
+			// own recover
+			recovers := false
+			ast.Inspect(fl.Body, func(m ast.Node) bool {
+				if ds, ok := m.(*ast.DeferStmt); ok {
+					ast.Inspect(ds.Call, func(k ast.Node) bool {
+						if id, ok := k.(*ast.Ident); ok && id.Name == "recover" {
+							recovers = true
+						}
+						return true
+					})
+				}
+				return true
+			})
+			if recovers {
+				r.Ok(rule, key, "the closure recovers and records the failure itself", c.pos(call.Pos()))
+				return true
+			}
+			// module functions reachable from the closure
+			var roots []*ssa.Function
+			if sf := c.P.SSAFunc(f.Obj); sf != nil {
+				for _, an := range sf.AnonFuncs {
+					if an.Pos() == fl.Pos() || (an.Syntax() != nil && an.Syntax().Pos() == fl.Pos()) {
+						roots = append(roots, an)
+					}
+				}
+			}
+			if len(roots) == 0 {
+				r.Undecided(rule, key, "the closure has no SSA form", c.pos(call.Pos()))
+				return true
+			}
+			reach := reachDecls(c.reachableLib(roots, nil))
+			var sites []string
+			scan := func(body ast.Node, g *Fn) {
+				inspectWithStack(body, func(m ast.Node, stack []ast.Node) bool {
+					switch x := m.(type) {
+					case *ast.CallExpr:
+						if id, ok := x.Fun.(*ast.Ident); ok && id.Name == "panic" {
+							if _, isB := g.Pkg.TypesInfo.Uses[id].(*types.Builtin); isB {
+								// a panic that the panic inventory (C01-PANIC-INVENTORY) discharges as unreachable does not count
+								if _, dead := panicExceptions[g.Name()+" | panic"]; !dead && c.exhaustiveDefault(g.Pkg, x, stack) == "" && c.enumRangeGuard(g.Pkg, stack) == "" {
+									sites = append(sites, "panic in "+g.Name())
+								}
+							}
+						}
+					case *ast.TypeAssertExpr:
+						if x.Type == nil {
+							return true
+						}
+						if len(stack) > 0 {
+							if as, ok := stack[len(stack)-1].(*ast.AssignStmt); ok && len(as.Lhs) == 2 {
+								return true
+							}
+							if vs, ok := stack[len(stack)-1].(*ast.ValueSpec); ok && len(vs.Names) == 2 {
+								return true
+							}
+						}
+						if c.dischargeAssertion(g, x, stack) == "" {
+							sites = append(sites, "unchecked assertion in "+g.Name())
+						}
+					}
+					return true
+				})
+			}
+			scan(fl.Body, f)
+			for _, g := range c.libFns() {
+				if reach[g.Obj] && g.Obj != f.Obj {
+					scan(g.Decl.Body, g)
+				}
+			}
+			sort.Strings(sites)
+			if len(sites) == 0 {
+				r.Ok(rule, key, "no explicit panic and no unchecked assertion of the module is reachable from the closure", c.pos(call.Pos()))
+			} else {
+				if len(sites) > 4 {
+					sites = append(sites[:4], fmt.Sprintf("... %d more", len(sites)-4))
+				}
+				r.Bad(rule, key, "the once-only closure can panic ("+strings.Join(sites, "; ")+") and does not recover: after a panic the Once is done and the result stays unset", c.pos(call.Pos()))
+			}
+			return true
+		})
+	}
+	if n == 0 {
+		r.Undecided(rule, "sites", "no sync.Once.Do closure found", "")
+	}
+}
